@@ -53,7 +53,7 @@ class PathTimeout(Exception):
     """the code under test did not return within PATH_TIMEOUT_S (reported as a hang)"""
 
 
-PATH_TIMEOUT_S = float(os.environ.get("VERIF_PATH_TIMEOUT", "40"))
+PATH_TIMEOUT_S = float(os.environ.get("VERIF_PATH_TIMEOUT", "150"))
 
 
 def _alarm_handler(signum, frame):
